@@ -87,21 +87,22 @@ Print Assumptions C17_code_load_current.
 (* plug-ins built on plug-ins (C17.Nested: the dependency sets, the stack and the stamps of load_custom_kernel_module
    for a chain of modules 0..n, module i built on module i+1).  The place of the hand-off is READ from the current text
    (code_handoff_always): after ANY history of top-level loads (of any module of the chain) and edits, once module i
-   has been loaded it is not stale, and a later change of ANY file of its chain - its own or that of a module it is
-   built on, however long ago and by whichever entry that one was loaded - makes it stale *)
+   has been loaded it is not stale, and a later change of ANY file it depends on (Nested.Clo: its own file, the file of
+   a module it is built on - however long ago and by whichever entry that one was loaded -, or a C source any of them
+   lists) makes it stale *)
 Require SM.C17.Nested.
 Theorem C17_code_nested : translated = true ->
-  forall (n : nat) (ops : list Nested.op) (i : nat),
+  forall (n : nat) (srcs : nat -> list nat) (ops : list Nested.op) (i : nat),
   (forall j, In (Nested.Load j) ops -> j <= n) -> i <= n ->
-  let w := Nested.run code_handoff_always n (ops ++ [Nested.Load i]) in
+  let w := Nested.run srcs code_handoff_always n (ops ++ [Nested.Load i]) in
   Nested.need_reload (snd w) (fst w) i = false /\
-  forall mt', (forall f, snd w f <= mt' f) -> (exists f0, i <= f0 <= n /\ snd w f0 < mt' f0) ->
+  forall mt', (forall f, snd w f <= mt' f) -> (exists f0, Nested.Clo n srcs i f0 /\ snd w f0 < mt' f0) ->
   Nested.need_reload mt' (fst w) i = true.
 Proof. intros Ht. try solve [vm_compute in Ht; discriminate Ht]. all: exact Nested.nested_edit_seen. Qed.
 Print Assumptions C17_code_nested.
 (* with the hand-off inside the reload branch the statement is false (base loaded alone, wrapper loaded, base edited) *)
 Theorem C17_nested_inside_refuted :
-  let w := Nested.run false 1 [Nested.Load 1; Nested.Load 0; Nested.Edit 1 0] in Nested.need_reload (snd w) (fst w) 0 = false.
+  let w := Nested.run (fun _ => []) false 1 [Nested.Load 1; Nested.Load 0; Nested.Edit 1 0] in Nested.need_reload (snd w) (fst w) 0 = false.
 Proof. exact Nested.nested_inside_refuted. Qed.
 Print Assumptions C17_nested_inside_refuted.
 
